@@ -203,8 +203,20 @@ def awk_rows(arr):
     return system, rows
 
 
+def _mpf_of(c):
+    if type(c) is Q:
+        return mpf(c.v)
+    if isinstance(c, (bool, numpy.bool_)):
+        raise TypeError("boolean coordinate")
+    if isinstance(c, (int, numpy.integer)):
+        return mpf(int(c))
+    if isinstance(c, numpy.floating):
+        return mpf(float(c))
+    return mpf(c)
+
+
 def to_rv(system, coords):
-    return R.from_coords(system, [mpf(c.v) if type(c) is Q else mpf(c) for c in coords])
+    return R.from_coords(system, [_mpf_of(c) for c in coords])
 
 
 def bits(x):
